@@ -148,52 +148,210 @@ def student_env(data):
 BUILTINS = __builtins__ if isinstance(__builtins__, dict) else __builtins__.__dict__
 
 
-def observe_run(sb):
-    res = {"out": sb.raw_output, "globals": sandbox_globals(sb.data)}
-    exc = sb.exception
-    if exc is None:
-        res["outcome"] = None
-    else:
+DECOY_MAIN = "decoy_main.py"
+DECOY_CODE = "print('this is NOT the program under test')\ndecoy_global = 'decoy'\n"
+RUN_VIAS = ("set_input", "run-inputs", "queue_input", "two-part", "set-then-queue", "clear-first", "tuple", "single-str",
+            "filename", "code-filename")
+
+
+class Entry:
+    """Every public way into the sandbox for one case.  `api`:
+
+      commands          the module-level command functions of pedal.sandbox.commands on the MAIN report (run, call,
+                        evaluate, set_input, queue_input, clear_input, get_input, get_output, get_raw_output,
+                        get_exception, get_student_data, get_sandbox, get_function, clear_output)
+      commands+report   the same functions with an explicit `report=` (a Report of its own; the MAIN report holds another
+                        program, so a command that forgets its `report` acts on the wrong sandbox)
+      sandbox           the Sandbox object's methods and attributes
+
+    Observations go through the same door as the commands: get_raw_output() / get_output() / get_exception() /
+    get_student_data() / get_input() for the command spellings, the attributes for the object."""
+
+    def __init__(self, api):
+        from pedal.core.report import Report
+        self.api = api
+        if api == "commands+report":
+            self.report = Report()
+            self.kw = {"report": self.report}
+        else:
+            self.report = MAIN_REPORT
+            self.kw = {}
+
+    def submit(self, fn, code, decoy_main=False):
+        files = {fn: code}
+        main = fn
+        if decoy_main:
+            # the program under test is NOT the main file: it is named in the run() call
+            files[DECOY_MAIN] = DECOY_CODE
+            main = DECOY_MAIN
+        if self.api == "commands+report":
+            contextualize_report(Submission(files={"answer.py": DECOY_CODE}, main_file="answer.py"))
+            contextualize_report(Submission(files=files, main_file=main), report=self.report)
+        else:
+            contextualize_report(Submission(files=files, main_file=main))
+
+    @property
+    def sb(self):
+        if self.api == "sandbox":
+            return self.report["sandbox"]["sandbox"]
+        return commands.get_sandbox(**self.kw)
+
+    # ---- the program
+    def run(self, fn, code, inputs, via=None, threaded=False):
+        inputs = list(inputs)
+        t = {"threaded": True} if threaded else {}
+        if threaded:
+            self.sb.allowed_time = 60       # (instance attribute) a loaded machine must not turn into a TimeoutError
+        if via is None:
+            via = "run-inputs" if self.api == "sandbox" else "set_input"
+        if via == "single-str" and len(inputs) != 1:
+            via = "set_input"
+        if self.api == "sandbox":
+            sb = self.sb
+            set_input = sb.set_input
+            queue = lambda *xs: sb.set_input(xs, clear=False)          # noqa: E731
+            clear, run = sb.clear_input, sb.run
+        else:
+            kw = self.kw
+            set_input = lambda x, **o: commands.set_input(x, **o, **kw)          # noqa: E731
+            queue = lambda *xs: commands.queue_input(*xs, **kw)          # noqa: E731
+            clear = lambda: commands.clear_input(**kw)          # noqa: E731
+            run = lambda *a, **o: commands.run(*a, **o, **kw)          # noqa: E731
+        if via == "set_input":
+            set_input(inputs)
+            run(**t)
+        elif via == "run-inputs":
+            run(inputs=inputs, **t)
+        elif via == "queue_input":
+            queue(*inputs)
+            run(**t)
+        elif via == "two-part":
+            k = len(inputs) // 2
+            set_input(inputs[:k])
+            set_input(inputs[k:], clear=False)
+            run(**t)
+        elif via == "set-then-queue":
+            k = len(inputs) // 2
+            set_input(inputs[:k])
+            queue(*inputs[k:])          # adds to what is queued
+            run(**t)
+        elif via == "clear-first":
+            set_input(["left over from the previous student"])
+            clear()
+            queue(*inputs)
+            run(**t)
+        elif via == "tuple":
+            set_input(tuple(inputs))
+            run(**t)
+        elif via == "single-str":
+            set_input(inputs[0])
+            run(**t)
+        elif via == "filename":
+            run(filename=fn, inputs=inputs, **t)
+        elif via == "code-filename":
+            if self.api == "sandbox":
+                run(code, fn, inputs, **t)
+            else:
+                run(code, filename=fn, inputs=inputs, **t)
+        else:
+            raise ValueError("unknown run spelling %r" % (via,))
+
+    # ---- a function of the program
+    def call(self, c, args, kwargs, extra):
+        opts = {}
+        if "target" in c:
+            opts["target"] = c["target"]
+        if "inputs" in c:
+            opts["inputs"] = list(c["inputs"])
+        if c.get("threaded"):
+            opts["threaded"] = True
+            self.sb.allowed_time = 60       # (instance attribute) a loaded machine must not turn into a TimeoutError
+        if "fkw" in c:
+            opts["function_kwargs"] = extra
+        if "args_locals" in c:
+            opts["args_locals"] = list(c["args_locals"])
+        if "kwargs_locals" in c:
+            opts["kwargs_locals"] = dict(c["kwargs_locals"])
+        if c.get("via") == "get_function":
+            f = self.sb.get_function(c["fn"]) if self.api == "sandbox" else commands.get_function(c["fn"], **self.kw)
+            return f(*args, **opts, **kwargs)
+        if self.api == "sandbox":
+            return self.sb.call(c["fn"], *args, **opts, **kwargs)
+        return commands.call(c["fn"], *args, **opts, **kwargs, **self.kw)
+
+    def evaluate(self, c):
+        opts = {}
+        if "target" in c:
+            opts["target"] = c["target"]
+        if c.get("threaded"):
+            opts["threaded"] = True
+            self.sb.allowed_time = 60
+        if self.api == "sandbox":
+            return self.sb.evaluate(c["expr"], **opts)
+        return commands.evaluate(c["expr"], **opts, **self.kw)
+
+    def clear_output(self):
+        if self.api == "sandbox":
+            self.sb.clear_output()
+        else:
+            commands.clear_output(**self.kw)
+
+    # ---- observations
+    def raw(self):
+        return self.sb.raw_output if self.api == "sandbox" else commands.get_raw_output(**self.kw)
+
+    def lines(self):
+        """the LINE VIEW of what was printed (Sandbox.output / get_output())"""
+        return list(self.sb.output if self.api == "sandbox" else commands.get_output(**self.kw))
+
+    def exception(self):
+        return self.sb.exception if self.api == "sandbox" else commands.get_exception(**self.kw)
+
+    def data(self):
+        return self.sb.data if self.api == "sandbox" else commands.get_student_data(**self.kw)
+
+    def queue_left(self):
+        q = self.sb.inputs if self.api == "sandbox" else commands.get_input(**self.kw)
+        return list(q) if isinstance(q, list) else None
+
+    def outcome(self):
+        exc = self.exception()
+        if exc is None:
+            return None
+        sb = self.sb
         loc = getattr(sb.feedback, "location", None) if sb.feedback is not None else None
-        res["outcome"] = [type(exc).__name__, getattr(loc, "line", None) if loc is not None else None]
-    return res
+        return [type(exc).__name__, getattr(loc, "line", None) if loc is not None else None]
+
+    def observe_run(self):
+        return {"out": self.raw(), "raw": self.raw(), "lines": self.lines(), "globals": sandbox_globals(self.data()),
+                "outcome": self.outcome()}
 
 
 def run_sandbox(case):
-    """-> {"out", "globals", "outcome", "calls": [...], "consumed": [...], "code_of_calls": [...]}"""
+    """-> {"out", "globals", "outcome", "lines", "calls": [...], "consumed": [...], "code_of_calls": [...]}"""
     fn = case.get("filename", "answer.py")
-    sub = Submission(files={fn: case["code"]}, main_file=fn)
-    contextualize_report(sub)
     res = {"calls": []}
     api = case.get("api", "commands")
+    via = case.get("run_via")
     try:
-        sb = MAIN_REPORT["sandbox"]["sandbox"]
+        ent = Entry(api)
+        ent.submit(fn, case["code"], decoy_main=via in ("filename", "code-filename"))
         if case.get("limit") is not None:
-            sb.MAXIMUM_INPUTS = case["limit"]       # instance attribute: the class constant stays what it is
-        if api == "commands":
-            commands.set_input(list(case.get("inputs", [])))
-            commands.run()
-        else:
-            sb.run(inputs=list(case.get("inputs", [])))
+            ent.sb.MAXIMUM_INPUTS = case["limit"]       # instance attribute: the class constant stays what it is
+        ent.run(fn, case["code"], case.get("inputs", []), via, case.get("threaded"))
     except BaseException as e:      # noqa
         return {"escaped": type(e).__name__, "calls": []}
-    res["out"] = sb.raw_output
-    res["globals"] = sandbox_globals(sb.data)
-    res["data_keys"] = sorted(k for k in sb.data if isinstance(k, str))
+    sb = ent.sb
+    res.update(ent.observe_run())
+    res["data_keys"] = sorted(k for k in ent.data() if isinstance(k, str))
     res["consumed"] = list(sb._context[-1].inputs) if sb._context else []
-    res["queue_left"] = list(sb.inputs) if isinstance(sb.inputs, list) else None
-    exc = sb.exception
-    if exc is None:
-        res["outcome"] = None
-    else:
-        loc = getattr(sb.feedback, "location", None) if sb.feedback is not None else None
-        res["outcome"] = [type(exc).__name__, getattr(loc, "line", None) if loc is not None else None]
+    res["queue_left"] = ent.queue_left()
     hv = {}         # the grader's own variables (steps {"op": "let"}), alive over the whole history
     for c in case.get("calls", []):
         op = c.get("op", "call")
         if op == "let":
             try:
-                exec(c["stmt"], student_env(sb.data), hv)
+                exec(c["stmt"], student_env(ent.data()), hv)
                 res["calls"].append({"op": "let", "result": ["let"]})
             except BaseException as e:      # noqa
                 res["calls"].append({"op": "let", "result": ["harness", type(e).__name__]})
@@ -201,59 +359,62 @@ def run_sandbox(case):
         if op == "rerun":
             # the same process grades again (the same or another program), as a grader does for the next submission
             try:
-                contextualize_report(Submission(files={fn: c.get("code", case["code"])}, main_file=fn))
-                sb = MAIN_REPORT["sandbox"]["sandbox"]
-                if api == "commands":
-                    commands.set_input(list(c.get("inputs", [])))
-                    commands.run()
-                else:
-                    sb.run(inputs=list(c.get("inputs", [])))
+                ent.submit(fn, c.get("code", case["code"]))
+                ent.run(fn, c.get("code", case["code"]), c.get("inputs", []), c.get("run_via"))
             except BaseException as e:      # noqa
                 res["calls"].append({"op": "rerun", "result": ["escaped", type(e).__name__]})
                 continue
-            obs = observe_run(sb)
+            sb = ent.sb
+            obs = ent.observe_run()
             res["calls"].append(dict(obs, op="rerun", result=["rerun", obs["outcome"]]))
             continue
-        env = student_env(sb.data) if c.get("scope") == "student" else {"__builtins__": BUILTINS}
-        try:
-            args = [eval(a, dict(env), hv) for a in c.get("args", [])]
-            kwargs = {k: eval(a, dict(env), hv) for k, a in c.get("kwargs", {}).items()}
-        except Exception as e:      # noqa
-            res["calls"].append({"result": ["harness", type(e).__name__]})
+        if op == "clear_output":
+            try:
+                ent.clear_output()
+            except BaseException as e:      # noqa
+                res["calls"].append({"op": "clear_output", "result": ["escaped", type(e).__name__]})
+                continue
+            res["calls"].append({"op": "clear_output", "result": ["cleared"], "raw": ent.raw(), "lines": ent.lines()})
             continue
-        before = len(sb.raw_output)
-        opts = {}
-        if "target" in c:
-            opts["target"] = c["target"]
-        if "inputs" in c:
-            opts["inputs"] = list(c["inputs"])
-        keys_before = {k: id(v) for k, v in sb.data.items()}
+        data = ent.data()
+        args, kwargs, extra = [], {}, {}
+        if op != "evaluate":
+            env = student_env(data) if c.get("scope") == "student" else {"__builtins__": BUILTINS}
+            try:
+                args = [eval(a, dict(env), hv) for a in c.get("args", [])]
+                kwargs = {k: eval(a, dict(env), hv) for k, a in c.get("kwargs", {}).items()}
+                extra = {k: eval(a, dict(env), hv) for k, a in c.get("fkw", {}).items()}
+            except Exception as e:      # noqa
+                res["calls"].append({"result": ["harness", type(e).__name__]})
+                continue
+        before = len(ent.raw())
+        keys_before = {k: id(v) for k, v in data.items()}
         try:
-            if api == "commands":
-                r = commands.call(c["fn"], *args, **opts, **kwargs)
-            else:
-                r = sb.call(c["fn"], *args, **opts, **kwargs)
+            r = ent.evaluate(c) if op == "evaluate" else ent.call(c, args, kwargs, extra)
         except BaseException as e:  # noqa
             res["calls"].append({"result": ["escaped", type(e).__name__]})
             continue
         line = None
-        if sb.exception is not None:
-            exc = sb.exception
+        target = c.get("target", "_")
+        target_value = None
+        if ent.exception() is not None:
+            exc = ent.exception()
             exc = getattr(exc, "_actual_value", exc)
             out = ["exc", type(exc).__name__]
             loc = getattr(sb.feedback, "location", None) if sb.feedback is not None else None
             line = getattr(loc, "line", None) if loc is not None else None
         else:
             out = ["ret", ref.describe(getattr(r, "_actual_value", r))]
+            target_value = ref.describe(data[target]) if target in data else ["missing"]
         code = sb._context[-1].code if sb._context else None
-        target = c.get("target", "_")
-        changed = sorted(k for k in set(keys_before) | set(sb.data)
+        changed = sorted(k for k in set(keys_before) | set(data)
                          if isinstance(k, str) and k not in SANDBOX_OWN and
-                         (k not in sb.data or k not in keys_before or id(sb.data[k]) != keys_before[k])
-                         and not is_injected(sb.data.get(k, keys_before.get(k))))
-        res["calls"].append({"result": out, "line": line, "out": sb.raw_output[before:], "code": code,
-                             "changed_keys": changed, "target": target,
-                             "temporaries_left": sorted(k for k in sb.data if isinstance(k, str) and k.startswith("_temporary_")
+                         (k not in data or k not in keys_before or id(data[k]) != keys_before[k])
+                         and not is_injected(data.get(k, keys_before.get(k))))
+        raw = ent.raw()
+        res["calls"].append({"result": out, "line": line, "out": raw[before:], "raw": raw, "lines": ent.lines(), "code": code,
+                             "changed_keys": changed, "target": target, "target_value": target_value,
+                             "temporaries_left": sorted(k for k in data if isinstance(k, str) and k.startswith("_temporary_")
                                                         and k not in keys_before)})
     return res
 
@@ -300,6 +461,45 @@ def echo_variants(events):
     return outs
 
 
+def line_view(text):
+    """The LINE VIEW of one execution's printed text, from the documentation (Sandbox.output: "the list of strings that
+    have been printed ... line endings have been removed using rstrip"; append_output: "split on newlines and rstripped";
+    C15's statement: "that execution's text with trailing whitespace removed and split into right-stripped lines"):
+    the text is cut where print() ends a line - at "\n" and nowhere else (NOT at \r, VT, FF, FS/GS/RS, NEL, LS, PS, which
+    str.splitlines also takes for boundaries) - and an execution that printed only blank text shows one blank line."""
+    if not text:
+        return []
+    return [line.rstrip() for line in text.rstrip().split("\n")]
+
+
+def accumulated_views(executions):
+    """[(raw text, line view)] per echo form for the executions (their event lists) since the output was last cleared."""
+    out = []
+    for form in ECHO_FORMS:
+        texts = ["".join(e[1] if e[0] == "out" else form(e[1] or "") for e in ev) for ev in executions]
+        out.append(("".join(texts), [l for t in texts for l in line_view(t)]))
+    return out
+
+
+def view_problem(executions, sb_obs):
+    """None, or (kind, what): the accumulated raw text / the line view the sandbox shows after these executions against
+    what plain CPython printed (one consistent echo form)."""
+    if sb_obs.get("lines") is None or sb_obs.get("raw") is None:
+        return None
+    views = accumulated_views(executions)
+    if (sb_obs["raw"], sb_obs["lines"]) in views:
+        return None
+    for raw, lines in views:
+        if raw == sb_obs["raw"]:
+            k = 0
+            while k < min(len(lines), len(sb_obs["lines"])) and lines[k] == sb_obs["lines"][k]:
+                k += 1
+            return ("output-lines", "the printed LINES (Sandbox.output / get_output()) differ from entry %d on: sandbox %r, "
+                                    "plain CPython's text cut at its newlines %r" % (k, sb_obs["lines"][k:k + 4], lines[k:k + 4]))
+    return ("output-accumulated", "the text printed since the output was last cleared: sandbox %r, plain %r" % (
+        sb_obs["raw"][-80:], views[0][0][-80:]))
+
+
 def exhausted(events):
     return any(e[0] == "inp" and e[2] is None for e in events)
 
@@ -333,6 +533,9 @@ def compare_run(refres, sb):
         kind, name = gp[0]
         return {"kind": kind}, "student globals differ: %s %r (plain %r, sandbox %r)" % (
             kind, name, refres["globals"].get(name), sb["globals"].get(name))
+    vp = view_problem([refres["events"]], sb)
+    if vp:
+        return {"kind": vp[0]}, vp[1]
     return None
 
 
@@ -386,6 +589,17 @@ def oracle(case, refres, sb):
     consumed_plain = [e[2] for e in ev if e[0] == "inp"]
     if sb.get("consumed") is not None and sb["consumed"] != consumed_plain:
         return {"kind": "inputs-consumed"}, "inputs consumed: sandbox %r, plain %r" % (sb["consumed"], consumed_plain)
+    # what is left of the queue (Sandbox.inputs / get_input()): the replies the program did not read, in order
+    left = list(case.get("inputs", []))[len(consumed_plain):]
+    if sb.get("queue_left") is not None and sb["queue_left"] != left:
+        return {"kind": "queue-left"}, "inputs left in the queue: sandbox %r, not read by the program %r" % (
+            sb["queue_left"][:6], left[:6])
+    # the LINE VIEW of the printed text (Sandbox.output / get_output()), and the text accumulated over the executions
+    executions = [ev]           # since the output was last cleared
+    in_step = True              # False once an execution took the exhausted-queue path (the two sides part for good)
+    vp = view_problem(executions, sb)
+    if vp:
+        return {"kind": vp[0]}, vp[1]
     # call() vs calling the function directly
     program_globals = refres["globals"]
     for i, (c, rc, sc) in enumerate(zip(case.get("calls", []), refres.get("calls", []), sb.get("calls", []))):
@@ -406,17 +620,31 @@ def oracle(case, refres, sb):
             if v:
                 return dict(v[0], after="rerun"), "second run in the same process: " + v[1]
             program_globals = rc["globals"]
+            executions, in_step = [rc["events"]], not exhausted(rc["events"])
             continue
+        if c.get("op") == "clear_output":
+            if sc["result"][0] == "escaped":
+                return {"kind": "call-escaped", "cls": sc["result"][1]}, "clear_output() let %s escape" % sc["result"][1]
+            executions = []
+            vp = view_problem(executions, sc) if in_step else None
+            if vp:
+                return {"kind": vp[0], "after": "clear_output"}, "after clear_output(): " + vp[1]
+            continue
+        if c.get("op") == "evaluate":
+            c = dict(c, fn="evaluate", args=[c["expr"]])
         if rc["result"][0] == "nofn":
-            continue        # not one of the program's functions (it stopped before defining it): outside the property
+            # not one of the program's functions (it stopped before defining it, or the name is one of the sandbox's own
+            # replacement builtins): outside the property; whatever the sandbox printed while refusing is its own
+            executions.append([["out", sc.get("out") or ""]])
+            continue
         if exhausted(rc.get("events", [])):
+            in_step = False
             continue
         if sc["result"][0] == "escaped":
             return {"kind": "call-escaped", "cls": sc["result"][1]}, "call() let %s escape" % sc["result"][1]
         if rc["result"] != sc["result"]:
-            return call_signature(case, c, rc, sc, program_globals), "call %d %s(%s%s): sandbox %r, direct call %r" % (
-                i, c["fn"], ", ".join(c.get("args", [])),
-                "".join(", %s=%s" % kv for kv in c.get("kwargs", {}).items()), sc["result"], rc["result"])
+            return call_signature(case, c, rc, sc, program_globals), "call %d %s: sandbox %s, direct call %s" % (
+                i, spelled(c), short(sc["result"]), short(rc["result"]))
         if rc["result"][0] == "exc" and rc["result"][1] != "RecursionError" and rc.get("line") is not None \
                 and sc.get("line") != rc["line"]:
             # the exception was raised inside the program's own code: "the same exception" is the same kind of
@@ -430,7 +658,35 @@ def oracle(case, refres, sb):
             return (override_cause(c, program_globals) or {"kind": "call-output"},
                     "call %s(%s): printed text differs: sandbox %r, direct call %r" % (
                         c["fn"], ", ".join(c.get("args", []))[:80], sc["out"][-80:], plain_text(rc["events"])[-80:]))
+        if rc["result"][0] == "ret" and sc.get("target_value") is not None and sc["target_value"] != rc["result"][1]:
+            return (override_cause(c, program_globals) or {"kind": "call-target"},
+                    "call %d %s: returned %r, but the target variable %r of the student namespace holds %r" % (
+                        i, spelled(c), rc["result"][1], sc.get("target"), sc["target_value"]))
+        executions.append(rc.get("events") or [])
+        vp = view_problem(executions, sc) if in_step else None
+        if vp:
+            return (override_cause(c, program_globals) or {"kind": vp[0]}, "after call %d %s: %s" % (i, spelled(c), vp[1]))
     return None
+
+
+def short(x, n=240):
+    t = repr(x)
+    return t if len(t) <= n else t[:n // 2] + " ... " + t[-n // 2:]
+
+
+def spelled(c):
+    """The call of a step as the grader wrote it."""
+    if c.get("op") == "evaluate" or c.get("fn") == "evaluate" and "expr" in c:
+        return "evaluate(%r%s)" % (c["expr"], ", target=%r" % c["target"] if "target" in c else "")
+    parts = [repr(c["fn"])] + list(c.get("args", []))
+    parts += ["%s=%s" % kv for kv in c.get("kwargs", {}).items()]
+    for key in ("target", "inputs", "threaded", "args_locals", "kwargs_locals"):
+        if key in c:
+            parts.append("%s=%r" % (key, c[key]))
+    if "fkw" in c:
+        parts.append("function_kwargs={%s}" % ", ".join("%r: %s" % kv for kv in c["fkw"].items()))
+    head = "get_function(%s)(" % parts[0] if c.get("via") == "get_function" else "call(" + parts[0] + (", " if parts[1:] else "")
+    return head + ", ".join(parts[1:]) + ")"
 
 
 GENERIC_KEYS = {"kind", "plain", "sandbox", "after", "cls"}
@@ -440,6 +696,10 @@ def stream_signature(case, sig):
     """The compile / history streams make one defect visible under dozens of (plain class, sandbox class) pairs:
     their generic signatures are folded to kind + dimension (a signature that names a cause is left alone)."""
     shape = (case.get("shape") or [""])[0]
+    if sig.get("kind") == "input-queue-exhausted":
+        return sig          # the open finding keeps its own signature in every stream
+    if shape.startswith("api:") and set(sig) <= GENERIC_KEYS | {"arg"}:
+        return {"kind": sig["kind"], "stream": ":".join(shape.split(":")[:2])}
     if shape.startswith(("compile:", "history:")) and set(sig) <= GENERIC_KEYS:
         out = {"kind": sig["kind"], "stream": ":".join(shape.split(":")[:2])}
         if "after" in sig:
@@ -494,17 +754,22 @@ def override_cause(c, program_globals=()):
 
 
 NESTED_SIGNATURE = {"kind": "call", "cause": "subclass-instance-nested-in-literal"}
+KWARGS_LOCALS_SIGNATURE = {"kind": "call", "cause": "kwargs-locals-not-passed-as-keyword"}
 
 
 def call_signature(case, c, rc, sc, program_globals=()):
     if override_cause(c, program_globals):
         return override_cause(c, program_globals)
+    if c.get("kwargs_locals"):
+        # kwargs_locals= (withheld unless VERIF_C06_KWARGS_LOCALS is set, sandboxequiv_api.kwargs_locals_enabled)
+        return dict(KWARGS_LOCALS_SIGNATURE)
     if c.get("nested"):
         # an instance of a student subclass of a builtin INSIDE a container argument (sandboxequiv_history.NESTED_GROUPS)
         return dict(NESTED_SIGNATURE)
     if sc["result"] == ["exc", "KeyError"] and rc["result"][0] == "exc" and "KeyError" in rc.get("mro", []):
         return {"kind": "outcome", "cause": "keyerror-subclass-replaced"}
-    classes = sorted({arg_class(a) for a in list(c.get("args", [])) + list(c.get("kwargs", {}).values())})
+    classes = sorted({arg_class(a) for a in list(c.get("args", [])) + list(c.get("kwargs", {}).values()) +
+                      list(c.get("fkw", {}).values())})
     sig = {"kind": "call", "plain": rc["result"][0], "sandbox": sc["result"][0] + (":" + sc["result"][1]
                                                                                 if sc["result"][0] == "exc" else "")}
     if "float-nonfinite" in classes:
